@@ -10,7 +10,7 @@ sys.path.insert(0, os.path.dirname(os.path.abspath(__file__)))
 import extract      # noqa: E402
 import verus_run    # noqa: E402
 
-UNITS = ["rrt", "rrt_connect", "rrt_star", "prm", "py_wrappers", "js_wrappers", "compound_space", "rv_space", "py_bindings", "py_rrt", "py_rrt_connect", "py_rrt_star", "py_prm"]
+UNITS = ["rrt", "rrt_connect", "rrt_star", "prm", "py_wrappers", "js_wrappers", "compound_space", "rv_space", "so_spaces", "py_bindings", "py_rrt", "py_rrt_connect", "py_rrt_star", "py_prm"]
 out = {}
 for u in UNITS:
     g = extract.build_unit(verus_run.load_unit(u))
